@@ -41,6 +41,8 @@ func cmdVerify(args []string) {
 	showCalls := fs.Bool("calls", false, "print call ordinals of the matching functions")
 	nocache := fs.Bool("nocache", false, "ignore cache")
 	onlyContracted := fs.Bool("contracted", false, "only functions with a contract")
+	obRe := fs.String("ob", "", "only obligations whose name matches this regexp")
+	keepQ := fs.Bool("keep", false, "keep the query files of the selected obligations (prints their paths)")
 	fs.Parse(args)
 	t0 := time.Now()
 	w, err := LoadWorld(*repo, strings.Split(*pat, ","))
@@ -106,6 +108,23 @@ func cmdVerify(args []string) {
 		}
 	} else {
 		fmt.Println("LEMMA-ERROR", err)
+	}
+	if *obRe != "" {
+		ore := regexp.MustCompile(*obRe)
+		var sel []*Obligation
+		for _, ob := range obs {
+			if ore.MatchString(ob.Name) {
+				sel = append(sel, ob)
+			}
+		}
+		obs = sel
+	}
+	if *keepQ {
+		for i, ob := range obs {
+			f := fmt.Sprintf("/tmp/q_%d.smt2", i)
+			os.WriteFile(f, []byte("(set-logic ALL)\n"+ob.vc.Query(ob)), 0o644)
+			fmt.Printf("query %s -> %s\n", ob.Name, f)
+		}
 	}
 	s := NewSolver(*work)
 	s.TimeoutS = *to
